@@ -9,9 +9,11 @@ package main
 // then re-runs the child once per (syscall in the bracket × fault kind) with
 // strace injecting SIGKILL (crash just before that operation), an errno, or a
 // zero-byte write; for every failing run it also sweeps the clean-up path that
-// the failure exposed (second-order faults). Two further fault kinds need no
-// strace: RLIMIT_FSIZE makes the kernel really write only a prefix and then
-// either fail the write (EFBIG) or kill the process (SIGXFSZ) in mid-write.
+// the failure exposed (second-order faults). Two further fault kinds use
+// RLIMIT_FSIZE, which makes the kernel really write only a prefix of the
+// temporary file: the following write then fails with EFBIG, or (under strace)
+// the process is killed on entry of that following write, i.e. it crashes with
+// a partially written temporary file.
 //
 // Oracle (disk state after the child is gone): target bytes are exactly `old`
 // (or the target is absent if there was no old file) or exactly `new`; every
@@ -28,7 +30,6 @@ import (
 	"os/signal"
 	"path/filepath"
 	"regexp"
-	"sort"
 	"strconv"
 	"strings"
 	"syscall"
@@ -227,7 +228,7 @@ type c27Case struct {
 }
 
 type c27Fault struct {
-	Kind    string `json:"kind"` // kill | errno | zero-write | fsize-efbig | fsize-sigxfsz
+	Kind    string `json:"kind"` // kill | errno | zero-write | fsize-efbig | fsize-short-write-then-kill
 	Syscall string `json:"syscall,omitempty"`
 	When    int    `json:"when,omitempty"`
 	Errno   string `json:"errno,omitempty"`
@@ -531,7 +532,7 @@ func c27() {
 		r.Inconclusive("strace not installed")
 		r.Finish("strace missing", 1)
 	}
-	nCases := r.Pick(10, 160)
+	nCases := r.Pick(10, 80)
 	sizes := c27Sizes(r, nCases)
 	scratch := r.Scratch()
 	errnos := []string{"EIO", "ENOSPC", "EACCES", "EINTR", "EDQUOT", "EROFS"}
@@ -720,14 +721,7 @@ func c27() {
 		}
 	})
 
-	hits := map[string]int64{}
-	_ = hits
-	var keys []string
-	for _, k := range []string{"faults_hit"} {
-		keys = append(keys, fmt.Sprintf("%s=%d", k, r.Counter(k)))
-	}
-	sort.Strings(keys)
-	fmt.Println("C27 summary:", strings.Join(keys, " "))
+	fmt.Printf("C27 summary: faults_hit=%d\n", r.Counter("faults_hit"))
 	floor := r.Pick(12, 30)
 	r.Finish("one case = one run of the real WriteFileAtomic / MarshalAndSaveProtobuf in a child process with one fault (SIGKILL on entry of, or errno from, the k-th syscall of the bracket; zero-byte write; RLIMIT_FSIZE partial write) or a fault pair (failure + fault in the clean-up path it exposes); distinct = (mode, previous file present, syscall(s) actually hit according to the run's own strace log, errno, reported result)", floor)
 }
